@@ -257,6 +257,10 @@ func verifGuard(mu *sync.RWMutex, fields ...any) {}
 // verifLockFree: executor-only query of the lock state (see vhLockFree).
 func verifLockFree(mu *sync.RWMutex) bool { return true }
 
+// verifTimerHold: from now on timers that are armed do not fire within the scenario
+// (executor only; natively the harness uses waits far longer than its own deadline).
+func verifTimerHold() {}
+
 // verifTimerResets: the durations time.Timer.Reset was called with (executor only).
 func verifTimerResets() []int64 { return nil }
 
